@@ -52,6 +52,20 @@ def run(fn):
         return None, type(e).__name__
 
 
+# float encoding spellings the constructor accepts (the two legacy ones with a warning): kind -> (spelling, is IEEE)
+FLOAT_KINDS = {3: ("IEEE754", True), 4: ("MILSTD_1750A", False), 5: ("MIL-1750A", False), 6: ("IEEE-754", True), 7: ("IEEE754_1985", True)}
+
+
+def float_enc(lib, k, s):
+    import warnings
+    name, ieee = FLOAT_KINDS[k]
+    if not ieee and s != 32:
+        return None
+    with warnings.catch_warnings():
+        warnings.simplefilter("ignore")
+        return lib.encodings.FloatDataEncoding(s, encoding=name)
+
+
 class DType(Harness):
     """_min_dtype_for_encoding with symbolic size"""
     kind = "dtype"
@@ -61,7 +75,7 @@ class DType(Harness):
         lib = self.lib
         W = bv.W
         wide = self.job["params"].get("wide", False)
-        k = ctx.choose("kind", 5)
+        k = ctx.choose("kind", 8)
         n = z3.BitVec("n", W)
         ctx.assume(z3.And(n >= (65 if wide else 1), n <= (128 if wide else 64)))
         inputs = {"kind": k, "n": bv.SymInt(n), "wide": wide}
@@ -81,14 +95,14 @@ class DType(Harness):
             return result(str(dt), obl, observe={"dtype": dt, "cls": "ran"}, inputs=inputs)
         sizes = (16, 32, 64)
         s = sizes[ctx.choose("fsize", 3)]
-        enc = lib.encodings.FloatDataEncoding(s) if k == 3 else (lib.encodings.FloatDataEncoding(32, encoding="MILSTD_1750A") if s == 32 else None)
+        enc = float_enc(lib, k, s)
         if enc is None:
             return result("skip", [], observe={"cls": "ran"}, inputs=inputs)
         dt, exc = run(lambda: xarr._min_dtype_for_encoding(enc))
-        need = {16: ("float16", "float32", "float64"), 32: ("float32", "float64"), 64: ("float64",)}[s] if k == 3 else ("float64",)
+        need = {16: ("float16", "float32", "float64"), 32: ("float32", "float64"), 64: ("float64",)}[s] if FLOAT_KINDS[k][1] else ("float64",)
         # MIL-STD-1750A has a 24-bit mantissa and exponents to +-127: only float64 holds every value exactly
         inputs["fsize"] = s
-        return result(str(dt), [(f"float{s} ({'IEEE' if k == 3 else '1750A'}) stored in a superset format, got {dt}", dt in need)],
+        return result(str(dt), [(f"float{s} (encoding spelled {FLOAT_KINDS[k][0]}) stored in a superset format, got {dt}", dt in need)],
                       observe={"dtype": dt, "cls": "ran"}, inputs=inputs)
 
 
@@ -410,11 +424,9 @@ def concrete(req):
         kind, n = i["kind"], i["n"]
         if kind < 3:
             enc = lib.encodings.IntegerDataEncoding(n, ("unsigned", "signed", "twosComplement")[kind])
-        elif kind == 3:
-            enc = lib.encodings.FloatDataEncoding(i.get("fsize", 32))
         else:
-            enc = lib.encodings.FloatDataEncoding(32, encoding="MILSTD_1750A")
-        if "fsize" not in i and kind >= 3:
+            enc = float_enc(lib, kind, i.get("fsize", 32))
+        if ("fsize" not in i and kind >= 3) or enc is None:
             return {"cls": "ran"}
         return {"cls": "ran", "dtype": xarr._min_dtype_for_encoding(enc)}
     if k == "class":
@@ -488,19 +500,19 @@ def judge(req, got):
         kind, n = i["kind"], i["n"]
         if kind >= 3:
             import struct
-            if kind == 3:
+            if FLOAT_KINDS[kind][1]:
                 s_ = i.get("fsize", 32)
-                pt = lib.parameter_types.FloatParameterType("T", lib.encodings.FloatDataEncoding(s_))
+                pt = lib.parameter_types.FloatParameterType("T", float_enc(lib, kind, s_))
                 fmt = {16: ">e", 32: ">f", 64: ">d"}[s_]
                 tests = [struct.pack(fmt, x) for x in ({16: [6e-8, 65504.0], 32: [1e-45, 3.4e38], 64: [5e-324, 1.7e308]}[s_])]
             else:
-                pt = lib.parameter_types.FloatParameterType("T", lib.encodings.FloatDataEncoding(32, encoding="MILSTD_1750A"))
+                pt = lib.parameter_types.FloatParameterType("T", float_enc(lib, kind, 32))
                 tests = [bytes([0, 0, 1, 0x80]), bytes([0x7F, 0xFF, 0xFF, 0x7F])]       # M=1, E=-128 ; M=2^23-1, E=127
             parsed, cells, exc = real_cells(pt, tests, False)
             if exc:
                 return "reproduced", f"float field: create_dataset raises {exc}"
             if [float(c) for c in cells] != [float(p) for p in parsed]:
-                return "reproduced", f"{'IEEE' if kind == 3 else 'MIL-STD-1750A'} float of {i.get('fsize', 32)} bits stored as {got.get('dtype')}: cells {[float(c) for c in cells]} != parsed {[float(p) for p in parsed]}"
+                return "reproduced", f"float of {i.get('fsize', 32)} bits with the encoding spelled {FLOAT_KINDS[kind][0]} stored as {got.get('dtype')}: cells {[float(c) for c in cells]} != parsed {[float(p) for p in parsed]}"
             return "not-reproduced", "cells equal the parsed values"
         enc_name = ("unsigned", "signed", "twosComplement")[kind]
         pt = lib.parameter_types.IntegerParameterType("T", lib.encodings.IntegerDataEncoding(n, enc_name))
